@@ -254,3 +254,5 @@ def check(ctx):
     for r in returns_of(an, pi):
         okr = isinstance(r.ast.value, ast.Name) and r.ast.value.id == tparam
         ctx.ob("returns-tree", pi, r.ast, okr, "returns the merged tree" if okr else "_process_includes does not return the merged tree", node=r)
+    from .paths import check_filename_resolution
+    check_filename_resolution(ctx)
